@@ -6,7 +6,7 @@ from fractions import Fraction
 
 from ..absint import Interp, ObjV
 from ..forms import Const, Form, SliceV, TupleV, mk_fn
-from ..rules import S, Reject, check_range_guard, check_type_guard, find_raise_guards, names_in
+from ..rules import S, Reject, check_range_guard, check_type_guard, find_raise_guards, names_in, check_late_binding
 from ..srcmodel import src_of
 
 EXPLANATION = (
@@ -115,6 +115,7 @@ def run(ctx):
             ok = ok and isinstance(o.fields.get("noise"), Const)
         ctx.check("C05.3", ok, fs_, rets[0].node, f"SAMPLER [noise {noise}] -> signal {o.fields.get('signal')!r}", "input[instant::gv.sps] on signal and noise: stride = the DAC's expansion factor",
                   "SAMPLER is not input[instant::gv.sps] applied to signal and noise alike (start = instant, stride = gv.sps, no stop)")
+    check_late_binding(ctx, "C05.5", ["devices.DAC", "devices.SAMPLER"])
     ctx.require_min("C05.1", 7)
     ctx.require_min("C05.3", 2)
     ctx.require_min("C05.4", 11)
